@@ -18,12 +18,17 @@ type Globals struct {
 	InitFields map[*ssa.Global]map[int]*ssa.Const    // struct globals
 	InitAlloc map[*ssa.Global]*ssa.Alloc             // pointer globals initialised with &T{...}
 	ErrorNew  map[*ssa.Global]bool                   // = errors.New(...)
+	// map globals initialised with a literal of constant keys and values whose loaded
+	// value is only ever used for lookups (a constant table)
+	InitMap    map[*ssa.Global][][2]*ssa.Const
+	MapAliased map[*ssa.Global]string // reason the table is not constant
 }
 
 func analyseGlobals(P *Program) *Globals {
 	G := &Globals{P: P, Mutable: map[*ssa.Global]string{}, InitConst: map[*ssa.Global]*ssa.Const{},
 		InitElems: map[*ssa.Global]map[int64]*ssa.Const{}, InitFields: map[*ssa.Global]map[int]*ssa.Const{},
-		InitAlloc: map[*ssa.Global]*ssa.Alloc{}, ErrorNew: map[*ssa.Global]bool{}}
+		InitAlloc: map[*ssa.Global]*ssa.Alloc{}, ErrorNew: map[*ssa.Global]bool{},
+		InitMap: map[*ssa.Global][][2]*ssa.Const{}, MapAliased: map[*ssa.Global]string{}}
 	rootGlobal := func(v ssa.Value) *ssa.Global {
 		for {
 			switch x := v.(type) {
@@ -79,6 +84,27 @@ func analyseGlobals(P *Program) *Globals {
 					switch v := st.Val.(type) {
 					case *ssa.Const:
 						G.InitConst[g] = v
+					case *ssa.MakeMap:
+						var kvs [][2]*ssa.Const
+						constTable := true
+						for _, r := range *v.Referrers() {
+							switch u := r.(type) {
+							case *ssa.MapUpdate:
+								kc, ok1 := u.Key.(*ssa.Const)
+								vv, ok2 := u.Value.(*ssa.Const)
+								if u.Map != ssa.Value(v) || !ok1 || !ok2 {
+									constTable = false
+								} else {
+									kvs = append(kvs, [2]*ssa.Const{kc, vv})
+								}
+							case *ssa.Store, *ssa.DebugRef:
+							default:
+								constTable = false
+							}
+						}
+						if constTable {
+							G.InitMap[g] = kvs
+						}
 					case *ssa.Alloc:
 						G.InitAlloc[g] = v
 					case *ssa.Call:
